@@ -300,10 +300,17 @@ func (o *OperandPegImpl) CalcOffsetByteSize() int {
 
 		// 2. 間接アドレス指定 ([reg+disp], [reg+reg*scale+disp] など)
 		// ディスプレースメントがない場合は 0 バイト (ただし16bitの[BP]は例外)
+		// The displacement width follows the ADDRESS size, which the registers
+		// inside the brackets select (E-registers: 32-bit), not the BITS mode.
+		addr32 := memInfo.uses32BitAddressing(o.bitMode)
 		if memInfo.Displacement == 0 {
 			// Special case: [BP] in 16-bit mode uses ModRM mode 01 with disp8=0.
-			if o.bitMode == cpu.MODE_16BIT && memInfo.BaseReg == "BP" && memInfo.IndexReg == "" {
+			if !addr32 && memInfo.BaseReg == "BP" && memInfo.IndexReg == "" {
 				return 1 // disp8=0 for [BP]
+			}
+			// [EBP] likewise has no mod=00 encoding: a disp8 of 0 is emitted.
+			if addr32 && memInfo.BaseReg == "EBP" && memInfo.IndexReg == "" {
+				return 1
 			}
 			// Other cases like [BX], [SI], [BX+SI] etc. need no offset bytes with ModRM mode 00.
 			return 0
@@ -321,11 +328,11 @@ func (o *OperandPegImpl) CalcOffsetByteSize() int {
 		}
 
 		// 8ビットに収まらない場合、ビットモードに応じて disp16 または disp32
-		if o.bitMode == cpu.MODE_16BIT {
-			// 16ビットモードでは、16ビットディスプレースメントを使用
+		if !addr32 {
+			// 16ビットアドレッシングでは、16ビットディスプレースメントを使用
 			return 2 // disp16
 		}
-		// 32ビットモードでは、32ビットディスプレースメントを使用
+		// 32ビットアドレッシングでは、32ビットディスプレースメントを使用
 		return 4 // disp32
 
 	}
@@ -520,7 +527,7 @@ func (o *OperandPegImpl) IsType(index int, targetType OperandType) bool {
 func (o *OperandPegImpl) CalcSibByteSize() int {
 	memInfo, found := o.GetMemoryInfo()
 	// 32ビットモードでメモリオペランドがある場合のみ SIB の可能性を考慮
-	if found && memInfo != nil && o.GetBitMode() == cpu.MODE_32BIT {
+	if found && memInfo != nil && memInfo.uses32BitAddressing(o.GetBitMode()) {
 		// ModR/M rm=100 になる条件をチェック (calculateModRM のロジックを参考)
 		isDirectAddr := memInfo.BaseReg == "" && memInfo.IndexReg == ""
 		isEBPBasedNoIndex := memInfo.BaseReg == "EBP" && memInfo.IndexReg == ""
@@ -532,4 +539,17 @@ func (o *OperandPegImpl) CalcSibByteSize() int {
 		}
 	}
 	return 0 // SIB バイトは不要
+}
+
+// uses32BitAddressing reports whether the memory operand is addressed with
+// 32-bit registers (SIB byte possible, disp32); an operand without registers
+// uses the address size of the mode.
+func (m *MemoryInfo) uses32BitAddressing(mode cpu.BitMode) bool {
+	for _, r := range []string{m.BaseReg, m.IndexReg} {
+		if r == "" {
+			continue
+		}
+		return strings.HasPrefix(r, "E")
+	}
+	return mode == cpu.MODE_32BIT
 }
